@@ -187,6 +187,53 @@ def parse_sql(call):
     return sql_of(astx.arg(call, 0, 'sql'))
 
 
+def _const_strs(ctx, at, name):
+    """String values a local name can hold at node *at*: single constant assignment, or the loop variable
+    of `for name in (<str constants>)`.  None when it is anything else."""
+    ds = ctx.rd.defs(at, name)
+    if len(ds) != 1:
+        return None
+    d = next(iter(ds))
+    if d.kind == 'stmt' and isinstance(d.ast, ast.Assign) and len(d.ast.targets) == 1 and \
+            isinstance(d.ast.targets[0], ast.Name):
+        v = astx.const_str(d.ast.value)
+        return None if v is None else [v]
+    if d.kind == 'iter' and isinstance(d.ast.target, ast.Name) and d.ast.target.id == name and \
+            isinstance(d.ast.iter, (ast.Tuple, ast.List)) and d.ast.iter.elts and \
+            all(astx.const_str(e) is not None for e in d.ast.iter.elts):
+        return [e.value for e in d.ast.iter.elts]
+    return None
+
+
+def sql_variants(call, ctx, at, limit=32):
+    """All SQL texts an execute call can run when its text is built from literals and local names that
+    hold string constants (incl. a loop over a constant tuple).  None when not decidable."""
+    a = astx.arg(call, 0, 'sql')
+    if a is None:
+        return None
+    names = sorted({n.id for n in astx.walk(a) if isinstance(n, ast.Name)})
+    if not names or len(names) > 2:
+        return None
+    choices = []
+    for nm in names:
+        vals = _const_strs(ctx, at, nm)
+        if vals is None:
+            return None
+        choices.append(vals)
+    combos = [()]
+    for vals in choices:
+        combos = [c + (v,) for c in combos for v in vals]
+    if len(combos) > limit:
+        return None
+    out = []
+    for combo in combos:
+        s = sql_of(_subst(a, {nm: ast.Constant(value=v) for nm, v in zip(names, combo)}))
+        if s is None:
+            return None
+        out.append(s)
+    return out
+
+
 # --------------------------------------------------------------------------- per-function context
 def lex_inside(node, owner, field='body'):
     """True if AST *node* lies inside owner.<field> (via parent links; no scope crossing needed)."""
@@ -494,7 +541,12 @@ def collect_events(repo, fn, ctx):
             for c in astx.calls(e):
                 if id(c) in direct:
                     at = ctx.node_of(c)[0]
-                    evs.append(Ev(c, astx.receiver(c), parse_sql(c), _params(ctx, c, at)))
+                    sq = parse_sql(c)
+                    if sq is None:
+                        vs = sql_variants(c, ctx, at)
+                        if vs is not None and len(vs) == 1:
+                            sq = vs[0]
+                    evs.append(Ev(c, astx.receiver(c), sq, _params(ctx, c, at)))
                     continue
                 hfn = _self_method(repo, fn, c)
                 if hfn is None or hfn is fn:
@@ -855,6 +907,11 @@ def who(repo, out):
                 continue
             s = parse_sql(c)
             if s is None or s.verb is None:
+                variants = sql_variants(c, ctx, ctx.node_of(c)[0])
+                if variants is not None:
+                    for s2 in variants:       # e.g. a loop over a constant tuple of table names
+                        _who_one(repo, out, fn, ctx, c, s2, fn, c)
+                    continue
                 sites = _sql_sites(repo, fn, c)
                 if sites is None:
                     out.unsure(fn, c, 'SQL text is not a literal')
@@ -1468,7 +1525,7 @@ def precheck(repo, out):
     for fn in _prechecks(repo):
         ctx = Ctx(fn)
         g = ctx.g
-        header_names, sizes, tainted = set(), set(), set()
+        header_names, sizes, tainted, safe, consts = set(), set(), set(), set(), {}
         stmts = list(astx.walk_stmts(fn.node.body))
         for _ in range(3):      # small fixpoint over straight assignments
             for st in stmts:
@@ -1483,6 +1540,11 @@ def precheck(repo, out):
                     sizes.update(tg)
                 elif _volatile_uses(v, header_names, tainted):
                     tainted.update(tg)
+                elif astx.mentions(v, *header_names, *safe) if (header_names or safe) else False:
+                    safe.update(tg)        # derived from the constant magic bytes only
+                elif isinstance(v, ast.Constant) and isinstance(v.value, int) and not isinstance(v.value, bool) \
+                        and len(tg) == 1:
+                    consts.setdefault(tg[0], set()).add(v.value)
         raises = [n for n in g.nodes if n.kind == 'stmt' and isinstance(n.ast, ast.Raise)]
         for rn in raises:
             guards = [a for a in astx.ancestors(rn.ast) if isinstance(a, (ast.If, ast.While))]
@@ -1501,6 +1563,12 @@ def precheck(repo, out):
                             [n for n in astx.walk(t) if isinstance(n, ast.Attribute) and n.attr == 'st_size']
                 if size_refs:
                     ct = astx.canon(t)
+                    if isinstance(ct, ast.Compare) and len(ct.ops) == 1 and \
+                            isinstance(ct.comparators[0], ast.Name) and \
+                            len(consts.get(ct.comparators[0].id, ())) == 1 and \
+                            sum(1 for st2 in stmts for t2 in astx.assigned_targets(st2)
+                                if isinstance(t2, ast.Name) and t2.id == ct.comparators[0].id) == 1:
+                        ct.comparators[0] = ast.Constant(value=next(iter(consts[ct.comparators[0].id])))
                     okc = isinstance(ct, ast.Compare) and len(ct.ops) == 1 and \
                         isinstance(ct.ops[0], (ast.Lt, ast.LtE)) and \
                         isinstance(ct.comparators[0], ast.Constant) and isinstance(ct.comparators[0].value, int) and \
@@ -1521,7 +1589,7 @@ def precheck(repo, out):
                         verdict = verdict or ('unsure', f'file-size test `{astx.src(t)}` not recognised')
                     continue
                 known = any(astx.callee_attr(c) in _EXIST_FUNCS for c in astx.calls(t))
-                if not known and not astx.mentions(t, *header_names):
+                if not known and not astx.mentions(t, *header_names, *safe):
                     verdict = verdict or ('unsure', f'rejection test `{astx.src(t)}` not in the analysed vocabulary')
             if not guards:
                 verdict = verdict or ('unsure', 'unconditional raise')
@@ -1616,6 +1684,11 @@ _WHOLE_HELPER = ("    def _write_case(self, case_sql, case_row, record_type, sou
                  "            cur.execute(case_sql, case_row)\n"
                  "            cur.execute(\"INSERT INTO global_iterations(record_type, rowid, source) VALUES(?,?,?)\",\n"
                  "                        (record_type, cur.lastrowid, source))\n\n")
+
+_DELETES = ("        if self.connection:\n" + "".join(
+    f"            self.connection.execute(\"DELETE FROM {t}\")\n" for t in (
+        'global_iterations', 'driver_iterations', 'driver_derivatives', 'problem_cases', 'system_iterations',
+        'solver_iterations', 'driver_metadata', 'system_metadata', 'solver_metadata')))
 
 selftest(
     'C18',
@@ -1830,6 +1903,15 @@ selftest(
            "    if header[:16] != b'SQLite format 3\\x00':", 'C18.precheck'),
     Mutant('precheck-change-counter', RU, "    if header[:16] != b'SQLite format 3\\x00':",
            "    if header[:16] != b'SQLite format 3\\x00' or header[24:28] != header[92:96]:", 'C18.precheck'),
+    Mutant('who-loop-insert-outside-with', REC,
+           "            with self.metadata_connection as m:\n                m.execute(\"INSERT INTO solver_metadata(id, solver_options, solver_class)\"\n"
+           "                          \" VALUES(?,?,?)\",",
+           "            m = self.metadata_connection\n            for tab in ('solver_metadata',):\n"
+           "                m.execute(\"INSERT INTO \" + tab + \"(id, solver_options, solver_class)\"\n"
+           "                          \" VALUES(?,?,?)\",", 'C18.who'),
+    Mutant('precheck-volatile-through-local', RU, "    if header[:16] != b'SQLite format 3\\x00':",
+           "    magic = header[:16]\n    page = header[16:18]\n"
+           "    if not magic == b'SQLite format 3\\x00' or page == b'\\x00\\x00':", 'C18.precheck'),
     # ---- writers
     Mutant('writers-reader-repairs-file', RDR, "        cur.execute('select * from global_iterations')\n",
            "        cur.execute('DELETE FROM global_iterations WHERE rowid IS NULL')\n"
@@ -1902,6 +1984,17 @@ selftest(
          "    nbytes = os.path.getsize(filename)\n    if 100 > nbytes:"),
     Twin('twin-precheck-exists', RU, "    if not os.path.isfile(filename):",
          "    if not (os.path.exists(filename) and os.path.isfile(filename)):"),
+    Twin('twin-delete-loop-over-tables', REC, _DELETES,
+         "        connection = self.connection\n        if not connection:\n            return\n\n"
+         "        for table in ('global_iterations', 'driver_iterations', 'driver_derivatives',\n"
+         "                      'problem_cases', 'system_iterations', 'solver_iterations',\n"
+         "                      'driver_metadata', 'system_metadata', 'solver_metadata'):\n"
+         "            connection.execute(\"DELETE FROM \" + table)\n"),
+    Twin('twin-precheck-locals', RU, "    if os.path.getsize(filename) < 100:",
+         "    header_size = 100\n    if header_size > os.path.getsize(filename):",
+         also=[(RU, "    if header[:16] != b'SQLite format 3\\x00':",
+                "    magic = header[:16]\n    if not magic == b'SQLite format 3\\x00':"),
+               (RU, "        header = fd.read(100)", "        header = fd.read(header_size)")]),
     Twin('twin-select-between', REC, _SYS_SRC,
          _SYS_SRC + "                c.execute(\"SELECT count(*) FROM system_iterations\")\n\n"),
 )
